@@ -664,4 +664,151 @@ Section Coh.
                                     eq_refl Hf); [exact Es1|exact Hs].
         * cbn [List.app]. rewrite Es1. split; [exact Hcw|exact Hfin].
   Qed.
+
+  (* ---------------------------------------------------------------- delete *)
+  Lemma ps_abs_calls_app : forall l1 l2 A, ps_abs_calls (l1 ++ l2) A = ps_abs_calls l2 (ps_abs_calls l1 A).
+  Proof. induction l1 as [|x l1 IH]; intros l2 A; cbn [List.app ps_abs_calls]; [reflexivity|apply IH]. Qed.
+
+  Lemma ps_abs_obs_deletes : forall l A,
+    let A' := ps_abs_calls (map (fun s => CObsDeleted (pss_key s)) l) A in
+    ab_dyn A' = ab_dyn A /\ ab_cnt A' = ab_cnt A /\
+    (forall rec, In rec (ps_ol (ab_obs A')) <->
+                 In rec (ps_ol (ab_obs A)) /\ forall s, In s l -> pso_key rec <> pss_key s) /\
+    (NoDup (map pso_key (ps_ol (ab_obs A))) -> NoDup (map pso_key (ps_ol (ab_obs A')))).
+  Proof.
+    induction l as [|s l IH]; intro A; cbn [map ps_abs_calls].
+    - split; [reflexivity|]. split; [reflexivity|]. split; [|tauto].
+      intro rec. split; [intro H; split; [exact H|intros s []]|tauto].
+    - specialize (IH (ps_abs_call (CObsDeleted (pss_key s)) A)). cbn zeta in IH.
+      destruct IH as (I1 & I2 & I3 & I4). cbn [ps_abs_call ab_dyn ab_cnt ab_obs] in *.
+      split; [exact I1|]. split; [exact I2|]. split.
+      + intro rec. rewrite I3. rewrite ps_ol_rem by reflexivity. rewrite ps_obs_without_in. split.
+        * intros [[H1 H2] H3]. split; [exact H1|]. intros s' [<-|Hs']; [exact H2|apply H3; exact Hs'].
+        * intros [H1 H2]. split; [split; [exact H1|apply H2; left; reflexivity]|].
+          intros s' Hs'. apply H2. right. exact Hs'.
+      + intro Hnd. apply I4. rewrite ps_ol_rem by reflexivity. apply ps_nodup_filter_map. exact Hnd.
+  Qed.
+
+  Lemma ps_insub_remove : forall name m n s,
+    NoDup (map psr_name m) -> (ps_insub (ps_remove name m) n s <-> n <> name /\ ps_insub m n s).
+  Proof.
+    intros name m n s Hnd. unfold ps_insub. destruct (ps_bytes_dec n name) as [->|Hne].
+    - rewrite (ps_find_remove_same name m Hnd). split; [intros (r & E & _); discriminate|intros [X _]; congruence].
+    - rewrite (ps_find_remove_other name m n Hne). split; [intro H; split; assumption|intros [_ H]; exact H].
+  Qed.
+
+  Lemma ps_inv_del : forall name m A G,
+    ps_inv m A G -> ps_evt_ok (PsEvDel name) m ->
+    Forall (ps_call_wf (psc_la c) (psc_lt c)) (ps_ev_calls alloc c (PsEvDel name) m) /\
+    ps_inv (fst (ps_ev_out alloc (PsEvDel name) m))
+           (ps_abs_calls (ps_ev_calls alloc c (PsEvDel name) m) A)
+           (ps_ghost (PsEvDel name) m G).
+  Proof.
+    intros name m A G Hi Hok. unfold ps_ghost. cbn [ps_ev_calls ps_ev_out ps_evt_ok] in *.
+    destruct (ps_find name m) as [r|] eqn:Hf; [|cbn [fst ps_abs_calls]; split; [constructor|exact Hi]].
+    cbn [fst]. specialize (Hok r eq_refl).
+    destruct (iv_res _ _ _ Hi name r Hf) as (Hnok & Hrange & Hnd & _).
+    pose proof (iv_names _ _ _ Hi) as Hnames.
+    set (pre := if ps_del_bump r && (ps_del_value r mod psc_freq c =? 0)
+                then [CCntTrack name (ps_del_value r)] else []).
+    set (dels := map (fun s => CObsDeleted (pss_key s)) (psr_subs r)).
+    assert (Hval : 0 <= ps_del_value r <= ps_bound).
+    { unfold ps_del_value. destruct (ps_del_bump r); [|exact Hrange].
+      rewrite ps_next_observe_ok by lia. lia. }
+    assert (Hcw : Forall (ps_call_wf (psc_la c) (psc_lt c))
+                    (pre ++ CCntDeleted name :: CDynDeleted name :: dels)).
+    { apply Forall_app. split.
+      - subst pre. destruct (ps_del_bump r && (ps_del_value r mod psc_freq c =? 0)); [|constructor].
+        constructor; [|constructor]. apply (ps_track_wf m A G name r Hi Hf). exact Hval.
+      - constructor; [exact I|]. constructor; [exact I|]. subst dels.
+        apply Forall_forall. intros x Hx. apply in_map_iff in Hx. destruct Hx as (s & <- & _). exact I. }
+    split; [exact Hcw|].
+    assert (HA : ps_abs_wf (psc_la c) (psc_lt c)
+                   (ps_abs_calls (pre ++ CCntDeleted name :: CDynDeleted name :: dels) A)).
+    { apply (ps_abs_calls_wf (fun _ _ => 0) c); [apply (iv_wf _ _ _ Hi)|exact Hcw]. }
+    (* the files after the counter / dynamic-resource part *)
+    set (A1 := ps_abs_calls (pre ++ [CCntDeleted name; CDynDeleted name]) A).
+    assert (EA : ps_abs_calls (pre ++ CCntDeleted name :: CDynDeleted name :: dels) A = ps_abs_calls dels A1).
+    { subst A1. rewrite <- ps_abs_calls_app, <- app_assoc. reflexivity. }
+    assert (H1o : ab_obs A1 = ab_obs A).
+    { subst A1 pre. destruct (ps_del_bump r && (ps_del_value r mod psc_freq c =? 0)); reflexivity. }
+    assert (H1d : ps_ol (ab_dyn A1) = ps_dyn_without name (ps_ol (ab_dyn A))).
+    { subst A1 pre. destruct (ps_del_bump r && (ps_del_value r mod psc_freq c =? 0));
+        cbn [List.app ps_abs_calls ps_abs_call ab_dyn]; apply ps_ol_rem; reflexivity. }
+    assert (H1c : forall n x, In (n, x) (ps_ol (ab_cnt A1)) <-> n <> name /\ In (n, x) (ps_ol (ab_cnt A))).
+    { intros n x. subst A1 pre. destruct (ps_del_bump r && (ps_del_value r mod psc_freq c =? 0));
+        cbn [List.app ps_abs_calls ps_abs_call ab_cnt]; rewrite ps_ol_rem by reflexivity;
+        rewrite ps_cnt_without_in.
+      - rewrite ps_ol_add by reflexivity. rewrite ps_cnt_set_in. split.
+        + intros [Hne [[_ H]|[E _]]]; [split; assumption|contradiction].
+        + intros [Hne H]. split; [exact Hne|left; split; assumption].
+      - tauto. }
+    assert (H1n : NoDup (map fst (ps_ol (ab_cnt A1)))).
+    { subst A1 pre. destruct (ps_del_bump r && (ps_del_value r mod psc_freq c =? 0));
+        cbn [List.app ps_abs_calls ps_abs_call ab_cnt]; rewrite ps_ol_rem by reflexivity;
+        apply ps_nodup_filter_map.
+      - rewrite ps_ol_add by reflexivity. apply ps_cnt_set_nodup. apply (iv_cnt1 _ _ _ Hi).
+      - apply (iv_cnt1 _ _ _ Hi). }
+    destruct (ps_abs_obs_deletes (psr_subs r) A1) as (F1 & F2 & F3 & F4). fold dels in F1, F2, F3, F4.
+    rewrite EA in *.
+    assert (Hiff : forall n s, ps_insub (ps_remove name m) n s <-> n <> name /\ ps_insub m n s)
+      by (intros; apply ps_insub_remove; exact Hnames).
+    assert (Hfo : forall n, n <> name -> ps_find n (ps_remove name m) = ps_find n m)
+      by (intros; apply ps_find_remove_other; assumption).
+    assert (Hfs : ps_find name (ps_remove name m) = None) by (apply ps_find_remove_same; exact Hnames).
+    assert (Hne_of : forall n r', ps_find n (ps_remove name m) = Some r' -> n <> name)
+      by (intros n r' E X; subst n; rewrite Hfs in E; discriminate).
+    constructor.
+    - apply ps_names_remove. exact Hnames.
+    - intros n r' Hf'. pose proof (Hne_of n r' Hf') as Hne. rewrite (Hfo n Hne) in Hf'.
+      apply (iv_res _ _ _ Hi n r' Hf').
+    - intros n s Hs. apply Hiff in Hs. apply (iv_sub _ _ _ Hi n s (proj2 Hs)).
+    - intros n1 s1 n2 s2 H1 H2. apply Hiff in H1. apply Hiff in H2.
+      apply (iv_key _ _ _ Hi); [exact (proj2 H1)|exact (proj2 H2)].
+    - intros n s1 s2 H1 H2. apply Hiff in H1. apply Hiff in H2.
+      apply (iv_tok _ _ _ Hi n); [exact (proj2 H1)|exact (proj2 H2)].
+    - intros n s1 s2 H1 H2. apply Hiff in H1. apply Hiff in H2.
+      apply (iv_ck _ _ _ Hi n); [exact (proj2 H1)|exact (proj2 H2)].
+    - exact HA.
+    - intros n r' Hf' Ho'. pose proof (Hne_of n r' Hf') as Hne. rewrite (Hfo n Hne) in Hf'.
+      destruct (iv_dyn _ _ _ Hi n r' Hf' Ho') as [Hs|(d & Hd & Hdn)]; [left; exact Hs|right].
+      exists d. split; [|exact Hdn]. rewrite F1, H1d. apply ps_dyn_without_in. split; [exact Hd|congruence].
+    - intros d Hd. rewrite F1, H1d in Hd. apply ps_dyn_without_in in Hd. apply (iv_dynf _ _ _ Hi d (proj1 Hd)).
+    - intros n s Hs. apply Hiff in Hs. destruct Hs as [Hne Hs]. apply F3. rewrite H1o.
+      split; [apply (iv_obs1 _ _ _ Hi n s Hs)|].
+      intros s' Hs' Ek. cbn [ps_obs_of pso_key] in Ek.
+      destruct (iv_key _ _ _ Hi n s name s' Hs) as [X _]; [exists r; split; assumption|exact Ek|contradiction].
+    - intros rec Hr. apply F3 in Hr. rewrite H1o in Hr. destruct Hr as [Hr Hk].
+      destruct (iv_obs2 _ _ _ Hi rec Hr) as (n & s & Hs & E). exists n, s. split; [|exact E].
+      apply Hiff. split; [|exact Hs]. intro X. subst n. destruct Hs as (r' & Hf' & Hin).
+      rewrite Hf in Hf'. inversion Hf'; subst r'. apply (Hk s Hin). subst rec. reflexivity.
+    - apply F4. rewrite H1o. apply (iv_obs3 _ _ _ Hi).
+    - intros n x Hin. rewrite F2 in Hin. apply H1c in Hin. destruct Hin as [Hne Hin].
+      pose proof (iv_cnt0 _ _ _ Hi n x Hin) as Hh. unfold ps_has in *. rewrite (Hfo n Hne). exact Hh.
+    - rewrite F2. exact H1n.
+    - intros n x r' Hin Hf'. rewrite F2 in Hin. apply H1c in Hin. destruct Hin as [Hne Hin].
+      rewrite (Hfo n Hne) in Hf'. apply (iv_cnt2 _ _ _ Hi n x r' Hin Hf').
+    - intros n r' Hf' Hsub'. pose proof (Hne_of n r' Hf') as Hne. rewrite (Hfo n Hne) in Hf'.
+      destruct (iv_cnt3 _ _ _ Hi n r' Hf' Hsub') as [x Hx]. exists x. rewrite F2. apply H1c. split; assumption.
+    - intros n tu tok v Hin. apply filter_In in Hin. destruct Hin as [Hin Hb]. cbn [fst] in Hb.
+      assert (Hne : n <> name) by (intro X; subst n; rewrite ps_beq_refl in Hb; discriminate).
+      destruct (iv_sent _ _ _ Hi n tu tok v Hin) as (r' & Hf' & Hv & x & Hx).
+      exists r'. rewrite (Hfo n Hne). split; [exact Hf'|]. split; [exact Hv|].
+      exists x. rewrite F2. apply H1c. split; assumption.
+  Qed.
+
+  (* every event preserves the invariant *)
+  Theorem ps_inv_event : forall e m A G,
+    ps_inv m A G -> ps_evt_ok e m ->
+    Forall (ps_call_wf (psc_la c) (psc_lt c)) (ps_ev_calls alloc c e m) /\
+    ps_inv (fst (ps_ev_out alloc e m)) (ps_abs_calls (ps_ev_calls alloc c e m) A) (ps_ghost e m G).
+  Proof.
+    intros e m A G Hi Hok. destruct e.
+    - apply ps_inv_put; assumption.
+    - apply ps_inv_del; assumption.
+    - apply ps_inv_reg; assumption.
+    - apply ps_inv_cancel; assumption.
+    - apply ps_inv_notify; assumption.
+    - contradiction.
+  Qed.
 End Coh.
